@@ -283,6 +283,33 @@ pub fn run(ctx: &Ctx) -> (Stats, Report) {
     st.merge(s);
     st.section("grammar_pictures_x_mutated_inputs", &mut mark);
 
+    // 1c: pictures and inputs containing blank / digit runs whose length sits at 2^k (k = 8..=20)
+    for k in 8..=20u32 {
+        for n in [(1usize << k) - 1, 1 << k, (1 << k) + 1] {
+            let cases = [
+                (" ".repeat(n), "1".to_string()),
+                (format!("YYYY{}MM", " ".repeat(n)), "2021 07".to_string()),
+                ("YYYY MM".to_string(), format!("2021{}07", " ".repeat(n))),
+                ("YYYY-MM-DD".to_string(), "9".repeat(n)),
+                ("FF".to_string(), "1".repeat(n)),
+            ];
+            for (pic, text) in cases {
+                match check_text(&pic, &text) {
+                    Ok(c) => {
+                        st.evaluations += c as u64;
+                        st.fps.push(hash_ints(0x3c0, &[k as i128, n as i128, pic.len() as i128, text.len() as i128]));
+                        st.class("run-at-binary-boundary-length");
+                    }
+                    Err(m) => {
+                        let m: String = m.chars().filter(|c| *c != ' ' || true).take(300).collect();
+                        st.fail(n as u64, Case::new(P, "text", vec![], vec![pic, text]), format!("run length {n}: {}", m.split("\"").next().unwrap_or("")));
+                    }
+                }
+            }
+        }
+    }
+    st.section("binary_boundary_run_lengths", &mut mark);
+
     // 2a: structured inputs from the constructive speller (valid lenient spellings and
     // single-component perturbations of all six types), optionally mutated further: these get
     // past the first fields and reach the cross-checks at the end of parsing
